@@ -35,8 +35,11 @@ def pre_request(conf):
             raise OutOfModel("an atom already carries bonds or set-up state before setup_bonding_and_protonation")
         if a.type not in ("atom", "hetatm"):
             raise OutOfModel("atom type %r" % (a.type,))
+        # add_atom (parsed atoms) records the chain identifier in conformation.chains, copy_atom (topping-up) does not; the copies
+        # follow the conformation's own atoms, so "its chain is recorded" marks the atoms that count for the order of the chains
         out.append("|".join(["1" if a.type == "hetatm" else "0", hx(a.name), hx(a.element), hx(a.res_name), hx(a.chain_id), str(int(a.res_num)),
-                             hx(a.icode), hx(a.terminal or ""), str(common.bits(a.x)), str(common.bits(a.y)), str(common.bits(a.z))]))
+                             hx(a.icode), hx(a.terminal or ""), str(common.bits(a.x)), str(common.bits(a.y)), str(common.bits(a.z)),
+                             "1" if a.chain_id in conf.chains else "0"]))
     return ";".join(out) or "-"
 
 
@@ -47,7 +50,7 @@ def export_ext(conf, base=None):
     gl = g.split(";") if g != "-" else []
     al = [x + "|" + hx(at.sybyl_type or "") for x, at in zip(al, conf.atoms)]
     gl = [x + "|" + type(gr).__name__ + "|" + ("1" if gr.exclude_cys_from_results else "0") for x, gr in zip(gl, conf.groups)]
-    return (";".join(al) or "-", ";".join(gl) or "-")
+    return (";".join(al) or "-", (";".join(gl) or "-") + "~" + ",".join(hx(c) for c in conf.chains))
 
 
 def to_arg(options):
@@ -104,10 +107,14 @@ def check_pipes(pipes, tol=1e-9):
             continue
         ra = real_a.split(";") if real_a != "-" else []
         ma = parts[0].split(";") if parts[0] != "-" else []
+        real_g, real_ch = real_g.rsplit("~", 1)
+        model_g, model_ch = parts[1].rsplit("~", 1) if "~" in parts[1] else (parts[1], "")
         rg = real_g.split(";") if real_g != "-" else []
-        mg = parts[1].split(";") if parts[1] != "-" else []
+        mg = model_g.split(";") if model_g != "-" else []
         d = diff_lists("atom", AF, ra, ma, lambda i: unhex(ra[i].split("|")[1]) + " " + ra[i].split("|")[7] + unhex(ra[i].split("|")[8]))
         d += diff_lists("group", GF, rg, mg, lambda i: unhex(rg[i].split("|")[2]))
+        if real_ch != model_ch:
+            d.append("conformation.chains %r, model %r" % ([unhex(x) for x in real_ch.split(",")], [unhex(x) for x in model_ch.split(",")]))
         if not d and p[7]:
             nscore += 1
             d = ["scoring after the model's own set-up: " + x for x in compare(p[6], parse_model(parts[2]), tol)][:4]
@@ -128,9 +135,10 @@ def program_request(text, options, rp="-"):
     if not text.endswith("\n") and raw:
         raw[-1] = raw[-1][:-1]
     ch = getattr(options, "chains", None)
-    return "pipe pdb %s %s %s %s %s default %s" % (
+    gw = ",".join(str(common.bits(float(x))) for x in tuple(getattr(options, "grid", (0.0, 14.0, 0.1))) + tuple(getattr(options, "window", (0.0, 14.0, 1.0))))
+    return "pipe pdb %s %s %s %s %s default %s %s" % (
         rp, "1" if getattr(options, "protonate_all", False) else "0", to_arg(options), "1" if getattr(options, "keep_protons", False) else "0",
-        ",".join(hx(c) for c in ch) if ch else "-", ",".join(hx(l) for l in raw) or "-")
+        ",".join(hx(c) for c in ch) if ch else "-", gw, ",".join(hx(l) for l in raw) or "-")
 
 
 def run_program(text, optargs):
@@ -177,7 +185,8 @@ def run_program(text, optargs):
             summ = PO.get_summary_section(mol, "AVR", P)
             shead = "%s\n" % PO.get_summary_header()
             if summ.startswith(shead):
-                txt = (rows, summ[len(shead):])
+                txt = (rows, summ[len(shead):], PO.get_folding_profile_section(mol, conformation="AVR", reference="neutral", window=mol.options.window),
+                       PO.get_charge_profile_section(mol, conformation="AVR"))
     return None, mol.options, [(p[0], p[5], p[6]) for p in rec.pipes], rec.pipes[0][2] if rec.pipes else "-", avr, txt
 
 
@@ -280,10 +289,14 @@ def check_program(cases, tol=1e-9):
             f = body.split("#")
             ra = ext[0].split(";") if ext[0] != "-" else []
             ma = f[0].split(";") if f[0] != "-" else []
-            rg = ext[1].split(";") if ext[1] != "-" else []
-            mg = f[1].split(";") if f[1] != "-" else []
+            real_g, real_ch = ext[1].rsplit("~", 1)
+            model_g, model_ch = f[1].rsplit("~", 1) if "~" in f[1] else (f[1], "")
+            rg = real_g.split(";") if real_g != "-" else []
+            mg = model_g.split(";") if model_g != "-" else []
             d = diff_lists("atom", AF, ra, ma, lambda i: unhex(ra[i].split("|")[1]) + " " + ra[i].split("|")[7] + unhex(ra[i].split("|")[8]))
             d += diff_lists("group", GF, rg, mg, lambda i: unhex(rg[i].split("|")[2]))
+            if real_ch != model_ch:
+                d.append("conformation.chains %r, model %r" % ([unhex(x) for x in real_ch.split(",")], [unhex(x) for x in model_ch.split(",")]))
             if not d:
                 d = compare(real, parse_model(f[2]), tol)[:4]
             if d:
@@ -301,7 +314,18 @@ def check_program(cases, tol=1e-9):
             # the determinant table and the summary of the .pka file, character by character (stars blanked)
             if txt is not None and mtxt is not None and mtxt != "-#-":
                 TXT_COMPARED[0] += 1
-                md, ms = [unhex(x) for x in mtxt.split("#")]
+                md, ms, mf, mc = [unhex(x) for x in mtxt.split("#")]
+                for what, real, model in (("folding-energy section", txt[2], mf), ("charge section", txt[3], mc)):
+                    if real != model:
+                        rl, ml = real.split("\n"), model.split("\n")
+                        k = next((i for i, (a, b) in enumerate(zip(rl, ml)) if a != b), min(len(rl), len(ml)))
+                        bad.append((tag, ["%s of the .pka file: %d lines, model %d; line %d %r, model %r" % (
+                            what, len(rl), len(ml), k, rl[k] if k < len(rl) else None, ml[k] if k < len(ml) else None)]))
+                        break
+                else:
+                    pass
+                if bad and bad[-1][0] == tag:
+                    continue
                 if txt[1] != ms:
                     rl, ml = txt[1].split("\n"), ms.split("\n")
                     k = next((i for i, (a, b) in enumerate(zip(rl, ml)) if a != b), min(len(rl), len(ml)))
@@ -316,7 +340,7 @@ def check_program(cases, tol=1e-9):
     return len(reqs), nconf, nerr, outside, bad
 
 
-MODELLED_OPTIONS = {"-k", "--keep-protons", "--protonate-all", "-c", "--chain", "--titrate_only", "-i", "-d", "--display-coupled-residues", "-q", "--quiet"}
+MODELLED_OPTIONS = {"-g", "--grid", "-w", "--window", "-k", "--keep-protons", "--protonate-all", "-c", "--chain", "--titrate_only", "-i", "-d", "--display-coupled-residues", "-q", "--quiet"}
 
 
 def in_model(optargs):
@@ -328,6 +352,9 @@ def in_model(optargs):
             continue
         if a in ("-c", "--chain", "--titrate_only", "-i"):
             skip = True
+            continue
+        if a in ("-g", "--grid", "-w", "--window"):
+            skip3 = 3
             continue
         if a.startswith("--titrate_only=") or a.startswith("--chain="):
             continue
@@ -370,14 +397,14 @@ def program_tie(ctx, what, extra=()):
     ctx.count("program: conformations compared (atoms, hydrogens, groups, records)", nconf)
     ctx.count("program: rejected inputs on which both agree (error class)", nerr)
     ctx.count("program: average conformations compared (every reported group: numbers bit for bit, determinants in list order)", AVR_COMPARED[0])
-    ctx.count("program: .pka determinant tables and summaries compared (determinant table with its stars and summary, character by character)", TXT_COMPARED[0])
+    ctx.count("program: .pka determinant tables and summaries compared (determinant table with its stars, summary, folding-energy section, charge section with the pI: character by character)", TXT_COMPARED[0])
     ctx.count("program: texts outside the model (other parameter files, non-latin-1 text)", outside)
     ctx.count("program: texts with options -k / --protonate-all / -c / --titrate_only",
               sum(1 for c in cases if any(a in ("-k", "--protonate-all", "-c", "--titrate_only") or a.startswith("--titrate_only") for a in c[2])))
     ctx.oblige("correspondence: the program as one Lean function (Program.run: parser, read_pdb, top-up, bonding, SYBYL typing, protonation, "
-               "group extraction and set-up, sort_atoms, covalent coupling, scoring, the search for non-covalently coupled groups, average_of_conformations, the determinant and summary sections of the .pka file) = the real program from the PDB text on %d texts of %s "
+               "group extraction and set-up, sort_atoms, covalent coupling, scoring, the search for non-covalently coupled groups, average_of_conformations, profiles, pI and every section of the .pka file below its header) = the real program from the PDB text on %d texts of %s "
                "(%d conformations: every atom incl. built hydrogens bit for bit, every group, every determinant and pKa to 1e-9; the average conformation "
-               "bit for bit; the determinant table (with the stars of coupled groups) and the summary of the .pka file character by character; %d rejected "
+               "bit for bit; the determinant table (with the stars of coupled groups), the summary, the folding-energy section and the charge section of the .pka file character by character; %d rejected "
                "inputs with the same error class)" % (n, what, nconf, nerr),
                not bad, "; ".join("%s: %s" % (t[:60], "; ".join(d[:2])) for t, d in bad[:2])[:700])
     for t, d in bad[:1]:
